@@ -104,6 +104,7 @@ class RefGen:
         self.no_copy = tuple(no_copy)
         self.namedtuple_as_dict = namedtuple_as_dict
         self.static_dataclasses = False
+        self.owner = None  # the class whose fields are being described (for typing.Self)
         self.union_enc_isinstance = False
         self.union_mode = "strict"
         self.dataclass_call = None  # callable(gen, cls, x, 'to'|'from') -> expression (format / flag aware)
@@ -153,6 +154,8 @@ class RefGen:
         over = self._override(t, x, "deserialize")
         if over is not None:
             return over
+        if t in (typing_extensions.Self, getattr(typing, "Self", None)) and self.owner is not None:
+            t = self.owner
         t = strip(t)
         o = _origin(t)
         if t is typing.Any or t is object:
@@ -469,6 +472,8 @@ class RefGen:
         over = self._override(t, x, "serialize")
         if over is not None:
             return over
+        if t in (typing_extensions.Self, getattr(typing, "Self", None)) and self.owner is not None:
+            t = self.owner
         t = strip(t)
         o = _origin(t)
         if t is typing.Any or t is object:
